@@ -543,6 +543,7 @@ fn c05_written_index_n3_b2() {
 // @kind core
 // @timeout 2400
 // @mem 32
+// @rss 16
 // @functions as c05_written_index_n3_b2
 // @bounds 5 blocks, fan-out 2 (3 levels: 3 leaves, 2 inner nodes, root; partly filled last nodes on two levels)
 // @assumes as c05_written_index_n3_b2
@@ -558,6 +559,7 @@ fn c05_written_index_n5_b2() {
 // @kind stretch
 // @timeout 2400
 // @mem 32
+// @rss 16
 // @functions as c05_written_index_n3_b2
 // @bounds 4 blocks, fan-out 3 (2 levels: leaves of 3 and 1)
 // @assumes as c05_written_index_n3_b2
@@ -573,6 +575,7 @@ fn c05_written_index_n4_b3() {
 // @kind stretch
 // @timeout 3600
 // @mem 24
+// @rss 16
 // @flags c-ffi
 // @functions bbiwrite::write_chrom_tree (through std BufWriter; std HashMap with its real SipHash and hashbrown table)
 // @bounds 1 chromosome with data ("a" id 0; size symbolic, full width) out of a size table that also lists a chromosome without data ("bb")
@@ -621,6 +624,7 @@ fn c09_chrom_tree_layout() {
 // @kind stretch
 // @timeout 3600
 // @mem 40
+// @rss 32
 // @functions as c05_written_index_n3_b2
 // @bounds 7 blocks, fan-out 2 (4 levels: 4 leaves, 2+1 inner nodes, root; partly filled last leaf)
 // @assumes as c05_written_index_n3_b2
@@ -636,6 +640,7 @@ fn c05_written_index_n7_b2() {
 // @kind core
 // @timeout 2400
 // @mem 24
+// @rss 12
 // @functions bbiwrite::write_data (the task that writes encoded sections to the destination / staging buffer) over BufWriter<FaultySink>, as future_channel sets it up
 // @bounds one finished section of 10 bytes in the channel, then the channel is closed; the k-th destination operation fails (k symbolic, 1..=4); BufWriter capacity 64 (>= the section, like the production 8 KiB buffer)
 // @stubs the task hand-off `section_raw.await.unwrap()` is replaced in the scratch copy by `join_now(section_raw)` (result of an already finished task) and `frx.next().await` by `recv_now(&mut frx)` (a two-slot queue, closed when empty; two source substitutions; the native replay runs the unsubstituted function on the real channel and runtime); crossbeam_channel::Sender::send -> counted
